@@ -19,7 +19,7 @@ CONSTANTS
                 \* ("absscope": absolute paths for Scope directives only, and no ^ in Scope directives)
   FieldKinds,   \* subset of {"Field", "IndexField", "BankField"} (with FieldOn)
   ScopeOn, FieldOn, MethodFlags, \* Scope directives; Field lists; set of method flag bytes ({} = no methods)
-  StmtKinds,    \* subset of {"call0","call1","call2","nest","nestfirst","ret","store","ref","if","op","while"}
+  StmtKinds,    \* subset of {"call0","call1","call2","nest","nestfirst","ret","store","ref","if","op","while","scopecall"}
   MaxStmts,
   Widths,       \* package-length widths; {} = rotate 1..4 with the position in the program
   ChainItems,   \* > 0: programs are built from that many whole "chain items" instead of single productions (see ChainItem)
@@ -62,8 +62,21 @@ NameVals == { Cn("byte", 200), [t |-> "dword", n |-> <<65535, 65534>>], [t |-> "
               [t |-> "string", s |-> "a~ c"], [t |-> "one"],
               [t |-> "buffer", a |-> <<Cn("byte", 3)>>, n |-> <<1, 255>>],
               [t |-> "package", n |-> <<2>>, a |-> <<Cn("word", 4660), [t |-> "string", s |-> "x"]>>] }
-DeclArgs(kd) == CASE kd = "Name"     -> {<<v>> : v \in NameVals}
-                  [] kd = "OpRegion" -> {<<Cn("byte", 1), Cn("word", 4096), Cn("byte", 16)>>}
+\* invocations outside method bodies: value of a Name (0..3 arguments, nested), Buffer size, OpRegion offset / length
+ScopeCalls == "scopecall" \in StmtKinds
+SNames == {Fresh[i] : i \in 1..(IF nfresh + 1 < Len(Fresh) THEN nfresh + 2 ELSE Len(Fresh))} \ {Fresh[nfresh + 1]}   \* declared, or the one after this declaration
+SCall(m, args) == [t |-> "call", f |-> F(FALSE, 0, <<m>>), a |-> args]
+K5 == Cn("byte", 5)
+ScopeVals == {SCall(m, <<>>) : m \in SNames} \cup {SCall(m, <<K5>>) : m \in SNames} \cup {SCall(m, <<K5, Cn("word", 600)>>) : m \in SNames}
+             \cup {SCall(m, <<K5, K5, K5>>) : m \in SNames}
+             \cup {SCall(m, <<SCall(n, <<K5>>)>>) : m, n \in SNames} \cup {SCall(m, <<K5, SCall(n, <<>>)>>) : m, n \in SNames}
+             \cup {[t |-> "buffer", a |-> <<SCall(m, <<K5>>)>>, n |-> <<1, 2>>] : m \in SNames}
+             \cup {[t |-> "ref", f |-> F(FALSE, 0, <<m>>)] : m \in SNames}
+DeclArgs(kd) == CASE kd = "Name"     -> IF ScopeCalls THEN {<<v>> : v \in ScopeVals} ELSE {<<v>> : v \in NameVals}
+                  [] kd = "OpRegion" -> IF ScopeCalls
+                                        THEN {<<Cn("byte", 1), o, l>> : o \in {Cn("word", 4096)} \cup {SCall(m, <<>>) : m \in SNames},
+                                                                        l \in {Cn("byte", 16)} \cup {SCall(m, <<K5>>) : m \in SNames}}
+                                        ELSE {<<Cn("byte", 1), Cn("word", 4096), Cn("byte", 16)>>}
                   [] kd = "Mutex"    -> {<<Cn("byte", 3)>>}
                   [] kd = "Event"    -> {<<>>}
 
@@ -194,9 +207,13 @@ LoaderSound == TreeShaped(st) /\ StackSound(st) /\ CallsSound(st) /\ st = Load(t
 \* the abstract parser design builds exactly what the loader says, for every complete program
 \* (programs that use a construct on which the pinned design is KNOWN to deviate are exempt: they can
 \* only be generated once the finding is closed, and then AmlNsImpl has to follow the repaired code)
-ImplDeviates == {"D1", "D1b", "D2", "D2c", "D10", "D11"}
+ImplDeviates == {"D1", "D1b", "D2", "D2c", "D10", "D11", "D12", "D13"}
 Expected == [ns |-> st.ns, calls |-> [i \in 1..Len(st.calls) |-> [tab |-> st.calls[i].tab, p |-> st.calls[i].p, n |-> Len(st.calls[i].a)]]]
-Same(r) == "res" \notin DOMAIN r /\ r.ns = Expected.ns /\ r.calls = Expected.calls
+\* (operands that contain names are compared through the invocation list only: the design model does not render terms)
+RECURSIVE UsesNames(_)
+UsesNames(x) == x.t \in {"call", "ref"} \/ (x.t \in Nested /\ \E i \in 1..Len(x.a) : UsesNames(x.a[i]))
+Strip(ns) == {IF \E i \in 1..Len(o.args) : UsesNames(o.args[i]) THEN [o EXCEPT !.args = <<>>] ELSE o : o \in ns}
+Same(r) == "res" \notin DOMAIN r /\ Strip(r.ns) = Strip(Expected.ns) /\ r.calls = Expected.calls
 RefinesAll == IsComplete => Same(I!Parse(toks, Bug))
 Refines == (IsComplete /\ st.trig \cap ImplDeviates = {}) => Same(I!Parse(toks, Bug))
 \* leg G: every complete program goes to the Go harness
